@@ -428,10 +428,12 @@ fn cross_build(prop: &str, base: u64, count: u64) -> (Vec<Replay>, u64, Vec<Stri
         for (s, (l, w)) in &own {
             let Some((ol, ow)) = other.get(s) else { continue };
             n += 1;
-            let class = if ol != l {
+            // C19 promises the same plan in every build, C05 the same result (another plan
+            // with the same result is none of C05's business)
+            let class = if prop == "C05" {
+                if ow != w { Some("result-differs-across-builds") } else { None }
+            } else if ol != l {
                 Some("plan-differs-across-builds")
-            } else if ow != w && prop == "C05" {
-                Some("result-differs-across-builds")
             } else {
                 None
             };
@@ -466,7 +468,7 @@ fn eval_xbuild(r: &Replay) -> EvalOut {
         for (name, bin) in other_builds() {
             let o = run_xdigest(&bin, &r.property, r.seed, 1);
             if let Some((ol, ow)) = o.get(&r.seed) {
-                if *ol != l.to_string() {
+                if *ol != l.to_string() && r.property != "C05" {
                     vs.push(Violation { prop: r.property.clone(), class: "plan-differs-across-builds".into(), msg: format!("seed {}: layout digest {} here, {} in build '{}'", r.seed, l, ol, name) });
                 } else if *ow != w.to_string() && r.property == "C05" {
                     vs.push(Violation { prop: r.property.clone(), class: "result-differs-across-builds".into(), msg: format!("seed {}: result digest {} here, {} in build '{}'", r.seed, w, ow, name) });
